@@ -241,24 +241,24 @@ def must_follow(ctx):
         other = [e.get("n") for i, st in w for e in st["lhs"]["p"] if isinstance(e, dict) and e.get("adt") == ACCEP]
         ctx.require(R4, good, "%s:%s" % (b.file, b.line), "%s stores %s(..) into endpoint.%s" % (fn, src, fld), [ACC + "::" + fn, "field"])
     uk = prog.async_body(ACC + "::update_keys")
-    pushes = [c for c in uk.calls_to("alloc::vec::Vec::push") if (ACC, "past_keys") in arg_origins(c, 0).fields]
-    ctx.floor(R4, "past_keys.push in update_keys", len(pushes), 1)
-    assigns = [i for i in uk.live_blocks() for st in uk.blocks[i]["stmts"] if st["s"] == "assign" and any(isinstance(e, dict) and e.get("adt") == ACC and e.get("n") == "current_key" for e in st["lhs"]["p"])]
-    assigns += [c.bb for c in uk.calls if c.dest and any(isinstance(e, dict) and e.get("adt") == ACC and e.get("n") == "current_key" for e in c.dest["p"]) and c.bb in uk.live_blocks()]
-    ctx.floor(R4, "replacement of current_key in update_keys", len(assigns), 1)
-    good, hit = unreachable_without(uk, assigns, removed_nodes=[c.bb for c in pushes])
-    ctx.require(R4, good, where(uk, assigns[0]) if assigns else "-", "the current key is pushed to past_keys before it is replaced", [ACC + "::update_keys", "old-key-lost"])
-    for c in pushes:
-        ctx.require(R4, (ACC, "current_key") in arg_origins(c, 1).fields, c.where(), "what is pushed is the (old) current key", [ACC + "::update_keys", "pushed-value"])
-    okb, errb, fwd = result_return_kinds(uk)
-    for i in assigns:
-        r = uk.reachable_after(i, removed_nodes=[p.bb for p in polls(uk, ACC + "::save")])
-        ctx.require(R4, not (set(okb) & r), where(uk, i), "after replacing the key the account is saved before success", [ACC + "::update_keys", "not-saved"])
     # the same function EVALUATED: for every pair of (key type, signature algorithm) states, a differing configuration creates a
     # new current key of the configured type/algorithm and keeps the old one; an equal configuration changes nothing
     kt_rows = key_edit_table(prog)
     if kt_rows is None:
         ctx.ok(R4, "update_keys not evaluable on this tree (structural rules only)")
+        pushes = [c for c in uk.calls_to("alloc::vec::Vec::push") if (ACC, "past_keys") in arg_origins(c, 0).fields]
+        ctx.floor(R4, "past_keys.push in update_keys", len(pushes), 1)
+        assigns = [i for i in uk.live_blocks() for st in uk.blocks[i]["stmts"] if st["s"] == "assign" and any(isinstance(e, dict) and e.get("adt") == ACC and e.get("n") == "current_key" for e in st["lhs"]["p"])]
+        assigns += [c.bb for c in uk.calls if c.dest and any(isinstance(e, dict) and e.get("adt") == ACC and e.get("n") == "current_key" for e in c.dest["p"]) and c.bb in uk.live_blocks()]
+        ctx.floor(R4, "replacement of current_key in update_keys", len(assigns), 1)
+        good, hit = unreachable_without(uk, assigns, removed_nodes=[c.bb for c in pushes])
+        ctx.require(R4, good, where(uk, assigns[0]) if assigns else "-", "the current key is pushed to past_keys before it is replaced", [ACC + "::update_keys", "old-key-lost"])
+        for c in pushes:
+            ctx.require(R4, (ACC, "current_key") in arg_origins(c, 1).fields, c.where(), "what is pushed is the (old) current key", [ACC + "::update_keys", "pushed-value"])
+        okb, errb, fwd = result_return_kinds(uk)
+        for i in assigns:
+            r = uk.reachable_after(i, removed_nodes=[p.bb for p in polls(uk, ACC + "::save")])
+            ctx.require(R4, not (set(okb) & r), where(uk, i), "after replacing the key the account is saved before success", [ACC + "::update_keys", "not-saved"])
     else:
         for (k1, a1, k2, a2), got in kt_rows:
             differs = (k1, a1) != (k2, a2)
@@ -398,6 +398,14 @@ def load_errors(ctx):
     ctx.require(R6, bool(none_edges) and good and err_ok, news[0].where() if news else "-", "Account::load creates a fresh key only when fetch reported that no account file exists", [ACC + "::load", "new-identity-condition"])
     im = [b for k, b in prog.bodies.items() if k.startswith("acmed::inner_main")]
     ok_ = False
+    from .main_model import trace as _main_trace
+    tr_ = _main_trace(prog, True, [])
+    tr_ok = _main_trace(prog, False, [])
+    if tr_ is not None and tr_ok is not None and tr_["kind"] in ("diverge", "return") and "new" in tr_["events"] and tr_ok["events"][-1:] == ["run"]:
+        # evaluation first: inner_main interpreted with MainEventLoop::new answering Err
+        ctx.require(R6, tr_["kind"] == "diverge" and "exit" in tr_["events"] and "run" not in tr_["events"], "acmed/src/main.rs",
+                    "a failed MainEventLoop::new ends the process (exit) without running: evaluated start-up sequence %s" % tr_["events"], ["main", "exit-on-error"])
+        return
     for b in im:
         for c in b.calls_to("acmed::main_event_loop::MainEventLoop::new"):
             for t in try_edges(b, [c.dest["l"]]):
@@ -538,11 +546,19 @@ def key_edit_table(prog):
             n = cs.name or ""
             if n.endswith("::gen_keypair") and args and args[0].deref().k == "variant":
                 return ok(struct_val(prog, KP, {"key_type": args[0].deref()}))
-            if n.startswith(ACC + "::save"):
-                saved[0] += 1
+            if n.startswith(ACC + "::save") and "{closure" not in n:
+                # what is saved is the account as it is at this moment: the new key must already be in place, the old one kept
+                now = (_FRAMES.get(getattr(holder[0], "fid", None)) or {}).get(9000)
+                if now is not None and now.k == "adt":
+                    ck_ = read(now.v[accf.index("current_key")])
+                    pk_ = now.v[accf.index("past_keys")].deref()
+                    if ck_ == (k2, a2) and pk_.k == "list" and [read(x) for x in pk_.v] == [(k1, a1)]:
+                        saved[0] += 1
             return None
+        holder = [None]
         acc = struct_val(prog, ACC, {"current_key": mk(k1, a1), "past_keys": Val("list", [])})
         it = Interp(b, success_model(b, model), 100000)
+        holder[0] = it
         it.follow = lambda cs: (cs.name or "").startswith(("acmed::account::AccountKey", "<acmed::account::AccountKey", "acme_common::crypto::key_type", "acme_common::crypto::jws_signature_algorithm",
                                                            "<acme_common::crypto::key_type", "<acme_common::crypto::jws_signature_algorithm"))
 
